@@ -181,7 +181,9 @@ class ServerCfg(dict):
     mutate      callable(n, kind, idx, data) -> [items]  transformation of each outgoing message
     kexinit_with_banner bool  send KEXINIT right after the banner without waiting
     wrong_version_text  bytes  if set, an SSH-2 banner from the tool is answered with this text and EOF
-    rate        str     behaviour for connections that never send anything ('banner' default)
+    banner_after_client bool  say nothing until the client has sent its identification string
+    maxstartups_after   int   connections numbered above this get "Exceeded MaxStartups" and are closed
+    refuse_after        int   connections numbered above this are refused
     """
 
 
@@ -229,6 +231,13 @@ class SshServer:
         self.sock = sock
         cfg = self.cfg
         eol = cfg.get('eol', b'\r\n')
+        if cfg.get('maxstartups_after') is not None and self.n > cfg['maxstartups_after']:
+            sock.push(b'Exceeded MaxStartups\r\n')
+            sock.push(EOF)
+            self.done = True
+            return
+        if cfg.get('banner_after_client'):
+            return
         for line in cfg.get('prebanner', []):
             self.emit(sock, 'prebanner', b(line) + eol)
         if cfg.get('banner') is not None:
@@ -266,6 +275,11 @@ class SshServer:
 
     def on_client_banner(self, sock, line):
         cfg = self.cfg
+        if cfg.get('banner_after_client'):
+            eol = cfg.get('eol', b'\r\n')
+            for pl in cfg.get('prebanner', []):
+                self.emit(sock, 'prebanner', b(pl) + eol)
+            self.emit(sock, 'banner', b(cfg['banner']) + eol)
         ssh1 = cfg.get('ssh1')
         if ssh1 is not None:
             if line.startswith(b'SSH-2') and cfg.get('wrong_version_text') is not None:
@@ -359,6 +373,8 @@ class SshServer:
 
 def server_factory(cfg):
     def f(world, n, addr):
+        if cfg.get('refuse_after') is not None and n > cfg['refuse_after']:
+            return None
         return SshServer(cfg, world, n, addr)
     return f
 
